@@ -17,8 +17,13 @@ loop that goes on consumes a byte, every returned statement shortens the input, 
 strictly shorter input. So the model's answers are those of the unbounded loops of lex.go, and those
 loops terminate on every input (`statement_shortens_input`, `iteration_consumes`).
 
-Not proved (covered by the correspondence + monitor only): that everything between statements is
-blank/comment/delimiter text (`lossless`).
+`scan_reassembles`, `scan_total_length` — the structural half of *lossless*: for every input and
+option set the input is exactly gap₀ ++ stmt₀ ++ gap₁ ++ … ++ stmtₙ₋₁ ++ gapₙ with the returned texts in
+the returned order (no byte of a statement altered, duplicated or moved; everything else lies in one
+of the n+1 gaps), so the texts together are never longer than the input.
+
+Not proved (covered by the correspondence + monitor only): that each gap holds only
+blank/comment/delimiter text (the gap grammar of `lossless`).
 -/
 import Lemmas.Lex
 import Lemmas.LexFuel
@@ -467,5 +472,70 @@ theorem pinned_delimiter_quote_panics : delimCmd false stmtsOpts stQuote = .inl 
 /-- … and the repaired tree takes the quote character itself as the delimiter. -/
 example : (match delimCmd true stmtsOpts stQuote with | .inr s => s.delim | .inl _ => []) = Bytes.ascii ['\''] := by
   decide
+
+/-! ### the structural half of *lossless* -/
+
+/-- gap₀ ++ text₀ ++ gap₁ ++ text₁ ++ … ++ gapₙ. -/
+def weave : List Bytes → List Bytes → Bytes
+  | g :: gs, t :: ts => g ++ t ++ weave gs ts
+  | [g], [] => g
+  | _, _ => []
+
+theorem chain_weave {src : Bytes} : ∀ {lo : Nat} {l : List Stmt}, Chain src lo l →
+    ∃ gaps : List Bytes, gaps.length = l.length + 1 ∧ src.drop lo = weave gaps (l.map (·.text)) := by
+  intro lo l
+  induction l generalizing lo with
+  | nil => intro _; exact ⟨[src.drop lo], rfl, rfl⟩
+  | cons st rest ih =>
+    intro h
+    obtain ⟨gaps, hlen, hw⟩ := ih h.2.2
+    refine ⟨(src.drop lo).take (st.pos - lo) :: gaps, by simp [hlen], ?_⟩
+    simp only [List.map_cons, weave]
+    rw [← hw]
+    have h1 : src.drop lo = (src.drop lo).take (st.pos - lo) ++ (src.drop lo).drop (st.pos - lo) :=
+      (List.take_append_drop _ _).symm
+    have h2 : (src.drop lo).drop (st.pos - lo) = src.drop st.pos := by
+      rw [List.drop_drop]; congr 1; have := h.1; omega
+    have h3 : src.drop st.pos = st.text ++ src.drop (st.pos + st.text.length) := by
+      have := (List.take_append_drop st.text.length (src.drop st.pos)).symm
+      rw [h.2.1, List.drop_drop] at this
+      exact this
+    rw [List.append_assoc, ← h3, ← h2]
+    exact h1
+
+/-- **scan_reassembles** (the structural half of *lossless*): for every input and option set, the
+input is exactly gap₀ ++ stmt₀ ++ gap₁ ++ … ++ stmtₙ₋₁ ++ gapₙ with the returned statement texts in
+the returned order — no byte of a statement is altered, duplicated or moved, and everything that is
+not in a statement lies in one of the n+1 gaps. -/
+theorem scan_reassembles (o : Opts) (src : Bytes) (stmts : List Stmt) (h : scan true o src = .inr stmts) :
+    ∃ gaps : List Bytes, gaps.length = stmts.length + 1 ∧ src = weave gaps (stmts.map (·.text)) := by
+  obtain ⟨gaps, hl, hw⟩ := chain_weave (scan_positions o src stmts h)
+  exact ⟨gaps, hl, by simpa using hw⟩
+
+theorem weave_length : ∀ (gaps texts : List Bytes), gaps.length = texts.length + 1 →
+    (weave gaps texts).length = (gaps.map List.length).sum + (texts.map List.length).sum := by
+  intro gaps texts
+  induction texts generalizing gaps with
+  | nil =>
+    intro h
+    match gaps, h with
+    | [g], _ => simp [weave]
+  | cons t ts ih =>
+    intro h
+    match gaps, h with
+    | g :: gs, h =>
+      simp only [weave, List.length_append, List.map_cons, List.sum_cons]
+      rw [ih gs (by simpa using h)]
+      omega
+
+/-- **scan_total_length**: the statement texts together are never longer than the input. -/
+theorem scan_total_length (o : Opts) (src : Bytes) (stmts : List Stmt) (h : scan true o src = .inr stmts) :
+    ((stmts.map (·.text)).map List.length).sum ≤ src.length := by
+  obtain ⟨gaps, hl, hw⟩ := scan_reassembles o src stmts h
+  have := weave_length gaps (stmts.map (·.text)) (by simpa using hl)
+  rw [← hw] at this
+  omega
+
+example : weave [[1], [2], [3]] [[10], [20]] = [1, 10, 2, 20, 3] := by decide
 
 end Props.C08
